@@ -3,5 +3,5 @@ From PV Require Import Lib.ExtBase C24.Prims C24.Model C24.Spec.
 Extraction "model.ml" ext_base_z ext_base_n ext_base_nat ext_base_res ext_base_list
   md5 rc4 c_encKey c_key c_o c_u c_validate_user_rc4 c_validate_owner_rc4
   alg2 alg3_key alg3 alg4 alg5_16 alg6 alg7
-  c_hashRev6 c_validate_user_aes c_validate_owner_aes c_calc_ou_aes c_write_perms c_validate_perms
+  c_hashRev6 c_prepared_password c_validate_user_aes c_validate_owner_aes c_calc_ou_aes c_write_perms c_validate_perms
   alg2B alg8 alg9 alg10 alg11 alg12 alg13.
